@@ -76,6 +76,10 @@ static std::string cls(const Basic &e, int lvl = 0)
             o += ";" + k;
         return o + "]";
     }
+    if (is_a<Contains>(e) && lvl < 1) {
+        const Contains &c = down_cast<const Contains &>(e);
+        return "Contains(" + cls(*c.get_expr(), 1) + "," + cls(*c.get_set(), 1) + ")";
+    }
     return type_code_name(e.get_type_code());
 }
 
@@ -144,6 +148,37 @@ struct Gen {
         }
         out.push_back(x);
     }
+    // mixed form: n-ary constructor over the sequence in which the adjacent pair (j, j+1) was first combined pairwise
+    void nary_grouped(const std::vector<int> &seq, size_t j, std::vector<Res> &out)
+    {
+        Res x;
+        vec_basic v;
+        std::string rc = std::string(OPN[op]) + "({";
+        try {
+            for (size_t i = 0; i < seq.size(); i++) {
+                if (i == j) {
+                    calls++;
+                    v.push_back(op2(op, (*L)[seq[i]].e, (*L)[seq[i + 1]].e));
+                    if (recipes)
+                        rc += std::string(i ? ", " : "") + OPN[op] + "(" + (*L)[seq[i]].name + ", " + (*L)[seq[i + 1]].name + ")";
+                    i++;
+                } else {
+                    v.push_back((*L)[seq[i]].e);
+                    if (recipes)
+                        rc += (i ? ", " : "") + (*L)[seq[i]].name;
+                }
+            }
+            if (recipes)
+                x.recipe = rc + "})";
+            calls++;
+            x.r = opn(op, v);
+        } catch (SymEngineException &ex) {
+            if (recipes)
+                x.recipe = rc + " ...})";
+            x.thrown = std::string("SymEngineException:") + ex.what();
+        }
+        out.push_back(x);
+    }
     // all forms of a multiset (sorted index vector): n-ary in every distinct order, then every distinct order x bracketing
     void all(std::vector<int> ms, std::vector<Res> &out)
     {
@@ -151,6 +186,9 @@ struct Gen {
         std::vector<int> p = ms;
         do {
             nary(p, out);
+            if (ms.size() >= 3)
+                for (size_t j = 0; j + 1 < p.size(); j++)
+                    nary_grouped(p, j, out);
         } while (std::next_permutation(p.begin(), p.end()));
         if (ms.size() >= 2) {
             p = ms;
@@ -204,7 +242,7 @@ int main(int argc, char **argv)
         return Complex::from_two_nums(*Rational::from_two_ints(a, b), *Rational::from_two_ints(c, d));
     };
 
-    std::vector<Family> F(3);
+    std::vector<Family> F(4);
     // ---- arithmetic: the 27-leaf exact alphabet of the design
     F[0].name = "arith";
     F[0].ops = {OP_ADD, OP_MUL};
@@ -236,6 +274,44 @@ int main(int argc, char **argv)
                    {"x+1", add(x, integer(1))},
                    {"sin(x)", sin(x)},
                    {"f(x)", function_symbol("f", x)}};
+    // ---- extended arithmetic alphabet (always <= 3 operands): the 27 leaves plus operands that reach the
+    // Mul-base, negative-rational-exponent, radical-of-sum, complex-coefficient and E-base branches of
+    // Mul::dict_add_term_new / Mul::power_num / Add::as_coef_term
+    F[3].name = "arith-ext";
+    F[3].ops = {OP_ADD, OP_MUL};
+    F[3].kmax = 3;
+    F[3].leaves = F[0].leaves;
+    {
+        std::vector<Leaf> ext = {{"(x*y)^(1/2)", pow(mul(x, y), R(1, 2))},
+                                 {"(x*y)^(-1/2)", pow(mul(x, y), R(-1, 2))},
+                                 {"x^(-1/2)", pow(x, R(-1, 2))},
+                                 {"x^2", pow(x, integer(2))},
+                                 {"x^(2*y)", pow(x, mul(integer(2), y))},
+                                 {"x^(-y)", pow(x, neg(y))},
+                                 {"y^x", pow(y, x)},
+                                 {"(x+1)^(1/2)", pow(add(x, integer(1)), R(1, 2))},
+                                 {"(x+1)^-1", pow(add(x, integer(1)), integer(-1))},
+                                 {"2*(x+1)", mul(integer(2), add(x, integer(1)))},
+                                 {"-x", neg(x)},
+                                 {"-x-1", neg(add(x, integer(1)))},
+                                 {"I*x", mul(I, x)},
+                                 {"(1+I)*x", mul(C(1, 1, 1, 1), x)},
+                                 {"2^(-1/2)", pow(integer(2), R(-1, 2))},
+                                 {"3^(1/2)", pow(integer(3), R(1, 2))},
+                                 {"6^(1/2)", pow(integer(6), R(1, 2))},
+                                 {"(1/2)^(1/3)", pow(R(1, 2), R(1, 3))},
+                                 {"(-1)^(1/3)", pow(integer(-1), R(1, 3))},
+                                 {"(1+I)^(1/2)", pow(C(1, 1, 1, 1), R(1, 2))},
+                                 {"2^x", pow(integer(2), x)},
+                                 {"exp(x)", exp(x)},
+                                 {"exp(-x)", exp(neg(x))},
+                                 {"E^2", pow(E, integer(2))},
+                                 {"pi^-1", pow(pi, integer(-1))},
+                                 {"log(x)", log(x)},
+                                 {"sqrt(2)*x", mul(pow(integer(2), R(1, 2)), x)}};
+        for (auto &l : ext)
+            F[3].leaves.push_back(l);
+    }
     // ---- max/min: numbers, symbols, non-number constants, nested Max/Min
     F[1].name = "maxmin";
     F[1].ops = {OP_MAX, OP_MIN};
@@ -282,6 +358,13 @@ int main(int argc, char **argv)
     long long total = 0;
     for (auto &f : F) {
         gen_multisets((int)f.leaves.size(), f.kmax, f.multisets);
+        if (f.name == "arith-ext") { // multisets made only of the 27 base leaves are already in family "arith"
+            std::vector<std::vector<int>> keep;
+            for (auto &m : f.multisets)
+                if (m.back() >= (int)F[0].leaves.size())
+                    keep.push_back(m);
+            f.multisets.swap(keep);
+        }
         f.base = total;
         total += f.ncases();
     }
@@ -444,7 +527,9 @@ int main(int argc, char **argv)
     Rn.transitions = Rn.evaluations;
     Rn.bound_completed = "every multiset of <= " + std::to_string(F[0].kmax) + " operands: arithmetic 27 leaves x {add,mul}, max/min "
                          + std::to_string(F[1].leaves.size()) + " leaves, and/or " + std::to_string(F[2].leaves.size())
-                         + " leaves; every distinct order x every binary bracketing + n-ary constructor in every distinct order";
+                         + " leaves; every multiset of <= 3 operands of the extended arithmetic alphabet (" + std::to_string(F[3].leaves.size())
+                         + " leaves); every distinct order x every binary bracketing + n-ary constructor in every distinct order (also with "
+                           "one adjacent pair pre-combined)";
     Rn.rule = "E5: for each multiset and operator all distinct permutations x all binary bracketings are built with the pairwise "
               "constructor and all distinct permutations with the n-ary constructor (vec_basic / set_boolean); every form is compared with "
               "the first form: independent structural key (key.h, does not use eq/hash/compare/str) identical, eq() true in both "
